@@ -27,6 +27,7 @@ import (
 	"os"
 	"path/filepath"
 	"strconv"
+	"strings"
 	"time"
 
 	"github.com/rs/zerolog"
@@ -197,6 +198,20 @@ func runBinary(c *Ctx, ps []*cborgen.Prog) {
 	}
 	c.Res.ExtraCoverage["programs"] = len(ps)
 	c.Res.ExtraCoverage["build"] = "binary_log"
+	// outside the generator's range (recorded, not judged): fractional instants far from the epoch lose
+	// more than a microsecond in the float64 seconds of CBOR tag 1
+	probe := map[string]string{}
+	for _, secs := range []int64{1 << 33, 1 << 34, 1 << 38, 253402300000} {
+		w := &capture{}
+		t := time.Unix(secs, 123456789).UTC()
+		lg := zerolog.New(w)
+		lg.Log().Time("t", t).Send()
+		if len(w.bufs) == 1 {
+			dec, _ := decodeReal(w.bufs[0])
+			probe[t.Format(time.RFC3339Nano)] = strings.TrimSpace(string(dec))
+		}
+	}
+	c.Res.ExtraCoverage["fractional_time_far_from_epoch"] = probe
 }
 
 // ---------------------------------------------------------------- variant run: JSON build + the comparison
